@@ -193,3 +193,15 @@ Proof. split; [vm_compute; reflexivity|]. split; [vm_compute; reflexivity|]. spl
 Example two_spellings :
   results [] [OWrite 1 0 two_reqs; OLoad 1 0; OWrite 2 0 one_req; OLoad 1 0] = [Some two_reqs; Some one_req].
 Proof. vm_compute. reflexivity. Qed.
+
+(** Why LoadConfigFile must hand the WHOLE file to the decoder, however long it is: a reader that stops after the first
+    [k] bytes (a size limit, a buffer, a scanner that gives up) and happens to stop at the end of a line leaves a
+    well-formed shorter document.  Nothing is reported and the last requirement is gone; the next dawn get / dawn tidy
+    writes the shortened configuration back.  ([load_config_file] reads everything: config_roundtrip has no bound on
+    the size of [c]; the correspondence check holds the implementation to that with files of every size class.) *)
+Example whole_file_is_needed :
+  let k := length (write one_req) in
+  (k < length (write two_reqs))%nat /\
+  load (firstn k (write two_reqs)) = Some one_req /\ one_req <> two_reqs /\
+  load_config_file (Some (write two_reqs)) = Some two_reqs.
+Proof. split; [vm_compute; repeat constructor|]. split; [vm_compute; reflexivity|]. split; [discriminate|vm_compute; reflexivity]. Qed.
